@@ -506,6 +506,14 @@ def r01_7(run):
         k = sum(1 for n in p.nodes() if n.kind != 'exit' and is_process(n))
         run.ob('R01.7', lr, lr.node, 'every received line is fed to the machine exactly once', k == 1, slot='process-once',
                message='lineReceived feeds the line %d times on path %s' % (k, p.describe()))
+    # ... and it is the line as received: before the machine has classified it nothing may rewrite it (un-stuffing a data line
+    # belongs in the data-line handler - done here, the stuffed line ".." turns into the block terminator ".")
+    for n in walk_unit(lr):
+        if isinstance(n, (ast.Assign, ast.AugAssign)) and param in assigned_targets(n):
+            v = n.value
+            plain = isinstance(v, ast.Call) and callee_attr(v) == 'decode' and dotted(receiver(v)) == param
+            run.ob('R01.7', lr, n, 'the received line is only decoded before it is classified', plain, slot='line-rewritten',
+                   message='lineReceived rewrites the line (%s = %s) before the line machine sees it: the machine\'s matchers then classify a different line than Tor sent' % (param, src(v)[:40]))
     for c in calls_in(lr, 'self.fsm.process'):
         a = c.args[0] if c.args else None
         ok = a is not None and (dotted(a) == param or (isinstance(a, ast.Call) and callee_attr(a) == 'decode' and dotted(receiver(a)) == param))
